@@ -6,6 +6,9 @@ CONSTANTS
   SweepCoop = FALSE
   Emit = FALSE
   ClearOnProcess = TRUE
+  Spawners = FALSE
+  NestedSweep = FALSE
+  TeardownLoop = TRUE
   StopOps = FALSE
 VIEW view
 ACTION_CONSTRAINT EmitEdge
